@@ -174,7 +174,12 @@ def run_defaults(case):
     kw = dict(groups=flags[0], media=flags[1], privacy=flags[2], profiles=flags[3])
     optional = [c for c, f in zip((YowGroupsProtocolLayer, YowMediaProtocolLayer, YowPrivacyProtocolLayer,
                                    YowProfilesProtocolLayer), flags) if f]
-    want_protocol = set(YS.YOWSUP_PROTOCOL_LAYERS_BASIC) | set(optional)
+    # the basic module set, written down here (never read from the library's own constant, which a defect may alter)
+    basic_names = ["YowAuthenticationProtocolLayer", "YowMessagesProtocolLayer", "YowReceiptProtocolLayer",
+                   "YowAckProtocolLayer", "YowPresenceProtocolLayer", "YowIbProtocolLayer", "YowIqProtocolLayer",
+                   "YowNotificationsProtocolLayer", "YowContactsIqProtocolLayer", "YowChatstateProtocolLayer",
+                   "YowCallsProtocolLayer"]
+    want_protocol = sorted(basic_names + [c.__name__ for c in optional])
     transport = [YowNetworkLayer, YowNoiseSegmentsLayer, YowNoiseLayer, YowCoderLayer, YowLoggerLayer]
 
     def v(sig, detail):
@@ -189,17 +194,24 @@ def run_defaults(case):
         if AxolotlControlLayer not in classes:
             v("C18/defaults/%s/no-encryption-control" % label, "AxolotlControlLayer missing")
         groups = [x for x in items if cls_of(x) is S["YowParallelLayer"]]
-        subs = [set(s.__class__ for s in g.sublayers) for g in groups]
-        if {AxolotlSendLayer, AxolotlReceivelayer} not in subs:
+        subs = [sorted(s.__class__.__name__ for s in g.sublayers) for g in groups]
+        if sorted([AxolotlSendLayer.__name__, AxolotlReceivelayer.__name__]) not in subs:
             v("C18/defaults/%s/no-encryption-group" % label, "send/receive encryption group missing")
-        prot = [s for s in subs if YS.YOWSUP_PROTOCOL_LAYERS_BASIC[0] in s]
+        prot = [s for s in subs if "YowAuthenticationProtocolLayer" in s]
         if len(prot) != 1:
             v("C18/defaults/%s/protocol-group-count" % label, "%d protocol groups" % len(prot))
         elif prot[0] != want_protocol:
-            extra = [c.__name__ for c in prot[0] - want_protocol]
-            missing = [c.__name__ for c in want_protocol - prot[0]]
-            v("C18/defaults/%s/optional-modules" % label, "extra %s missing %s" % (extra, missing))
+            extra = sorted(set(prot[0]) - set(want_protocol)) or [x for x in prot[0] if prot[0].count(x) > 1]
+            missing = sorted(set(want_protocol) - set(prot[0]))
+            v("C18/defaults/%s/optional-modules" % label, "protocol group has %d layers; extra/duplicated %s missing %s"
+              % (len(prot[0]), extra[:4], missing))
 
+    # an application may build several stacks in one process: an earlier call with the complementary selection must
+    # not influence this one
+    try:
+        S["YowStackBuilder"].getDefaultLayers(**{k: not val for k, val in kw.items()})
+    except Exception:
+        pass
     if case["kind"] == "default_layers":
         try:
             items = S["YowStackBuilder"].getDefaultLayers(**kw)
